@@ -322,9 +322,34 @@ fn mixture_case(rec: &mut Rec, _ctx: &Ctx, idx: u64, rng: &mut ChaCha20Rng) {
   }
 }
 
+fn flood_case(rec: &mut Rec, _ctx: &Ctx, idx: u64, rng: &mut ChaCha20Rng) {
+  let (a, b) = match (make_sharing(rng, 3, 32, 32), make_sharing(rng, 3, 32, 32)) {
+    (Some(a), Some(b)) => (a, b),
+    _ => return,
+  };
+  let flood = [65_535usize, 65_536, 65_537, 70_000, 131_073][(idx % 5) as usize];
+  rec.evals += 1;
+  rec.case(&("flood", flood, idx % 2));
+  let mut first = a.enc[0].clone();
+  if idx % 2 == 0 {
+    // altered authentication tag on the ciphertext-supplying share
+    let l = first.len();
+    first[l - 1] ^= 1;
+  }
+  let mut coll: Vec<Vec<u8>> = Vec::with_capacity(flood + 4);
+  for _ in 0..flood {
+    coll.push(first.clone());
+  }
+  coll.extend(b.enc.iter().cloned());
+  judge(rec, &coll, &a.m, false, &format!("first-share-flood:{}", flood), idx % 3 == 0, || {
+    json!({"kind":"flood","first_share":hex(&first),"repeats":flood,"then":"all shares of another sharing","expected_message": hex(&a.m)})
+  });
+}
+
 pub fn run(ctx: &Ctx) -> Rec {
   let mut rec = par_run(ctx, "faults", ctx.n(240, 6000), |rec, i, rng| fault_case(rec, ctx, i, rng));
   let r2 = par_run(ctx, "mixtures", ctx.n(4000, 120_000), |rec, i, rng| mixture_case(rec, ctx, i, rng));
   rec.merge(r2);
+  rec.merge(par_run(ctx, "flood", ctx.n(5, 30), |rec, i, rng| flood_case(rec, ctx, i, rng)));
   rec
 }
